@@ -15,7 +15,10 @@ theorem C15_regen_guards :
     Formulas.guards.filter (fun g => !g.2.isEmpty) =
       [("(*Point).Add", ["p1", "p2"]), ("(*Point).Subtract", ["p1", "p2"]), ("(*Point).Negate", ["p1"]),
        ("(*Point).MultByCofactor", ["p1"]), ("(*Point).Equal", ["p0", "p1"]), ("(*Point).bytesMontgomery", ["p0"]),
-       ("(*Point).bytes", ["p0"]), ("(*Point).extendedCoordinates", ["p0"]), ("(*Point).ScalarMult", ["p2"])] := by
+       ("(*Point).bytes", ["p0"]), ("(*Point).extendedCoordinates", ["p0"]), ("(*Point).ScalarMult", ["p2"]),
+       ("(*Point).VarTimeDoubleScalarBaseMult", ["p2"]),
+       -- `checkInitialized(points...)`: every element of the slice parameter
+       ("(*Point).MultiScalarMult", ["a2[*]"]), ("(*Point).VarTimeMultiScalarMult", ["a2[*]"])] := by
   decide
 
 #print axioms C15_regen_guards
